@@ -8,6 +8,9 @@ package pogreb
 // nothing below their old length changes (APPEND-ONLY), their durable length does not shrink
 //@ spec func openFilesOnlyGrow() bool = forall h ref :: old(hOpen[h]) ==> hOpen[h] && fidOf[h] == old(fidOf[h]) && fLen[fidOf[h]] >= old(fLen[fidOf[h]]) && fDur[fidOf[h]] >= old(fDur[fidOf[h]]) && fDur[fidOf[h]] <= fLen[fidOf[h]]
 
+// two-state: every segment of the table stays where it is, keeps its file, and its cached size only grows
+//@ spec func tableGrows(dl *datalog) bool = forall i int :: 0 <= i && i < 32767 && old(dl.segments[i]) != nil ==> dl.segments[i] == old(dl.segments[i]) && dl.segments[i].file == old(dl.segments[i].file) && dl.segments[i].file.size >= old(dl.segments[i].file.size)
+
 //@ func (dl *datalog) swapSegment() (err error) [C02,C03,C06]
 //@   trusted not verified yet: range over the 32767-entry table, openSegment, gob
 //@   requires table: dl != nil && dl.opts != nil && dl.opts.FileSystem != nil && dlTable(dl) && dlDistinct(dl)
@@ -42,5 +45,6 @@ package pogreb
 // sealed segments are never written
 //@   ensures [C03] sealed-untouched: err == nil ==> forall i int :: 0 <= i && i < 32767 && old(dl.segments[i]) != nil && old(dl.segments[i].meta.Full) ==> dl.segments[i].file.size == old(dl.segments[i].file.size) && fLen[fidOf[dl.segments[i].file.File]] == old(fLen[fidOf[dl.segments[i].file.File]]) && fData[fidOf[dl.segments[i].file.File]] == old(fData[fidOf[dl.segments[i].file.File]])
 //@   ensures sizes: forall f *file :: f != dl.curSeg.file && !fresh(f) ==> f.size == old(f.size) && f.File == old(f.File)
+//@   ensures table-grows: tableGrows(dl)
 //@   flag lossless
 //@   modifies dl.curSeg, dl.segments, dl.maxSequenceID, any(segmentMeta).Full, any(segmentMeta).PutRecords, any(segmentMeta).DeleteRecords, any(file).size, dirFid[dl.opts.FileSystem], fLen, fDur, fData, hOpen, hPos, fidOf, fidName
